@@ -207,6 +207,7 @@ func C13(r *core.Report) {
 	}
 	r.Extra["C13_read_calls"] = nReads
 	c13Downgrade(r, scope)
+	c13ExhaustionExits(r, scope)
 	r.Floor("C13.R1", 4)
 	r.Floor("C13.R2", 25)
 	r.Floor("C13.R3", 40)
@@ -601,4 +602,110 @@ func sentinelGuarded(g *core.Graph, info *types.Info, x *core.GNode, errObj type
 		}
 	}
 	return false
+}
+
+// c13ExhaustionExits (C13.R4): a decoding loop whose condition has, next to its count bound, a conjunct that lets it stop
+// when the input runs out (`len(buf) >= 4`, `r.Len() > 0`) ends silently on a truncated input. The path from that exit to
+// a success return must re-test what stopped the loop (the counter against its bound, or the remaining length);
+// otherwise the slots that were never decoded keep their zero values and the truncation is not reported.
+func c13ExhaustionExits(r *core.Report, scope []*core.Func) {
+	const rule = "C13.R4"
+	p := r.Prog
+	n := 0
+	for _, f := range scope {
+		info := f.Pkg.TypesInfo
+		var loops []*ast.ForStmt
+		ast.Inspect(f.Body, func(m ast.Node) bool {
+			if l, ok := m.(*ast.FuncLit); ok && l != f.Lit {
+				return false
+			}
+			if fs, ok := m.(*ast.ForStmt); ok && fs.Cond != nil {
+				loops = append(loops, fs)
+			}
+			return true
+		})
+		for _, fs := range loops {
+			cj := conjuncts(fs.Cond)
+			if len(cj) < 2 {
+				continue
+			}
+			var exhaust ast.Expr
+			var remObj types.Object
+			for _, c := range cj {
+				be, ok := core.Unparen(c).(*ast.BinaryExpr)
+				if !ok || (be.Op != token.GEQ && be.Op != token.GTR) {
+					continue
+				}
+				if _, isConst := core.ConstInt(info, be.Y); !isConst {
+					continue
+				}
+				call, ok := core.Unparen(be.X).(*ast.CallExpr)
+				if !ok {
+					continue
+				}
+				if core.BuiltinName(info, call) == "len" && len(call.Args) == 1 && isByteSlice(info.TypeOf(call.Args[0])) {
+					exhaust, remObj = c, core.ObjOf(info, call.Args[0])
+				} else if sel, ok := core.Unparen(call.Fun).(*ast.SelectorExpr); ok && sel.Sel.Name == "Len" && len(call.Args) == 0 {
+					exhaust, remObj = c, core.ObjOf(info, sel.X)
+				}
+			}
+			if exhaust == nil {
+				continue
+			}
+			n++
+			k := fmt.Sprintf("%s#loop[%s]-exhaustion-exit-reported", f.Key, core.ExprStr(exhaust))
+			// objects of the other conjuncts (counter / bound)
+			others := map[types.Object]bool{}
+			for _, c := range cj {
+				if c == exhaust {
+					continue
+				}
+				ast.Inspect(c, func(m ast.Node) bool {
+					if id, ok := m.(*ast.Ident); ok {
+						if v, ok := info.Uses[id].(*types.Var); ok && !v.IsField() {
+							others[v] = true
+						}
+					}
+					return true
+				})
+			}
+			g := p.Graph(f)
+			done := g.LoopDone(fs)
+			if done == nil {
+				r.Undecided(rule, k, pos(r, fs), "loop exit not located in the control-flow graph")
+				continue
+			}
+			// from the exit, a success return reachable without passing a condition that mentions the counter/bound or the remaining input
+			retest := func(x *core.GNode) bool {
+				if x.Kind != core.KEdge || x.Ast == nil {
+					return false
+				}
+				if x.Ast.Pos() >= fs.Pos() && x.Ast.End() <= fs.End() {
+					return false // the loop's own condition
+				}
+				if remObj != nil && core.Mentions(info, x.Ast, remObj) {
+					return true
+				}
+				for o := range others {
+					if core.Mentions(info, x.Ast, o) {
+						return true
+					}
+				}
+				return false
+			}
+			path := g.PathAvoiding(done, func(x *core.GNode) bool {
+				if x.Kind != core.KStmt {
+					return false
+				}
+				if _, isRet := x.Ast.(*ast.ReturnStmt); !isRet {
+					return false
+				}
+				nilErr, dec := isNilErrReturn(f, x)
+				return !dec || nilErr
+			}, retest)
+			r.Check(path == nil, rule, k, pos(r, fs), "after the loop stops for lack of input the shortfall is tested before success is returned",
+				"the loop stops silently when the input runs out ("+core.ExprStr(exhaust)+") and success is returned without re-testing the count: a truncated file loads with the missing values left at zero", g.PathStrings(path)...)
+		}
+	}
+	r.Extra["C13_exhaustion_loops"] = n
 }
